@@ -18,3 +18,11 @@ def search(chk):
 
 def replay(path):
     return ac.replay(path)
+
+
+def extra(chk, info, res):
+    if info is not None:
+        from vlib import lean
+        lean.check_theorems(chk, "Poupool.Properties.C08", ["Poupool.C08.filtration_timeouts", "Poupool.C08.other_timeouts", "Poupool.C08.filtration_timers"])
+    if res is not None:
+        ac.check_intervals(chk, res, ['Filtration'])
